@@ -26,6 +26,7 @@ RUNTIME_ERROR_IDS = {"zerodiv", "nullPointer", "arrayIndexOutOfBounds", "negativ
                      "bufferAccessOutOfBounds", "nullPointerArithmetic", "negativeArraySize", "invalidFunctionArg",
                      "pointerOutOfBounds", "arrayIndexOutOfBoundsCond"}
 
+CMP_OPS = {"<", "<=", ">", ">=", "==", "!="}
 INT_TYPES = {"char", "schar", "uchar", "short", "ushort", "int", "uint", "long", "ulong"}
 
 
@@ -85,6 +86,14 @@ def verdicts(progs, findings, stats):
                 stats["verdict_not_on_ast_node"] = stats.get("verdict_not_on_ast_node", 0) + 1
                 continue
             node = p["nodes"][fd["node"] - 1]
+            if fd["id"] == "compareValueOutOfTypeRangeError" and not (node["k"] == "bin" and node["op"] in CMP_OPS):
+                # this id is reported at the operand that carries the out-of-range value; the verdict is about the comparison
+                par = [i for i, q in enumerate(p["nodes"], 1) if q["k"] == "bin" and q["op"] in CMP_OPS and fd["node"] in (q["a"], q["b"])]
+                if not par:
+                    stats["verdict_operand_without_comparison"] = stats.get("verdict_operand_without_comparison", 0) + 1
+                    continue
+                fd = dict(fd, node=par[0])
+                node = p["nodes"][par[0] - 1]
             if node["ty"] not in INT_TYPES or node["k"] == "num":
                 stats["verdict_on_non_integer_node"] = stats.get("verdict_on_non_integer_node", 0) + 1
                 continue
@@ -103,11 +112,12 @@ def known_ints(raw, pidx, node):
             and v.get("indirect", "0") == "0" and v.get("bound", "Point") == "Point"]
 
 
-def definite(p, pidx, fd, node, raw, plat):
+def definite(p, pidx, fd, node, raw):
     """Does the error finding rest on a KNOWN value at the operand that makes the evaluation undefined?  (C04 is about
     findings 'because of a definite value there'; cppcheck also reports error severity for values that are only
     possible on some path - those are not claims about every execution and are not flagged.)"""
     import minic_types as T
+    plat = p["plat"]
     fid = fd["id"]
     nid = fd["node"]
     if fid == "zerodiv":
@@ -135,7 +145,7 @@ def definite(p, pidx, fd, node, raw, plat):
     return False
 
 
-def flags(progs, findings, stats, raw, plat):
+def flags(progs, findings, stats, raw):
     """facts[pidx] = list of flag facts for C04."""
     res = [[] for _ in progs]
     for pidx, (p, fds) in enumerate(zip(progs, findings)):
@@ -170,7 +180,7 @@ def flags(progs, findings, stats, raw, plat):
             if (fd["node"], fd["id"]) in seen:
                 continue
             seen.add((fd["node"], fd["id"]))
-            if not definite(p, pidx, fd, node, raw, plat):
+            if not definite(p, pidx, fd, node, raw):
                 stats["error_without_known_value_" + fd["id"]] = stats.get("error_without_known_value_" + fd["id"], 0) + 1
                 continue
             res[pidx].append({"n": fd["node"], "k": "flag", "v": 0, "t": 0, "par": 0, "id": fd["id"], "msg": fd["msg"],
